@@ -46,6 +46,8 @@ A = {
  'pbv': ("∀ prev new : Board, piece_board_value prev new = Res.guard (pieceBoardValuePanics prev new) (pieceBoardValue prev new)", "RsAgree.piece_board_value_eq"),
  'thash': ("∀ s : GameState, GameState_transposition_hash s = Res.guard s.transpositionHashPanics s.transpositionHash", "RsAgree.transposition_hash_eq"),
  'geq': ("∀ a b : GameState, GameState_eq a b = (a.hash == b.hash)", "RsAgree.game_state_eq"),
+ 'ghash': ("∀ (s : GameState) (st : List BB), GameState_hash s st = st ++ [s.hash]", "RsAgree.game_state_hash"),
+ 'fmt': ("∀ (s : GameState) (f : List Char), GameState_fmt s f = .ok (f ++ showState s)", "RsAgree.game_state_fmt"),
  'vp': ("∀ s : GameState, GameState_valid_placement s = s.validPlacement", "RsAgree.valid_placement"),
  'pbit': ("∀ b : Board, PieceBoardState_placement_bit b = Res.guard b.placementBitPanics b.placementBit", "RsAgree.placement_bit"),
  'bfp': ("∀ (b : Board) (p : Piece) (p1 : Bool), PieceBoardState_bits_for_piece b p p1 = b.bitsForPiece p p1", "RsAgree.bits_for_piece"),
@@ -166,6 +168,17 @@ theorem C05_code_no_third_occurrence (s0 t : GameState) (h0 : StartOk s0) (as : 
     (hg : CodeGame s0 as t) (p : Board × Bool) : (turnStarts s0 as).count p ≤ 2 :=
   C05_no_third_occurrence s0 h0 as (C05_code_game_is_offered_run hg).1 p
 
+/-- the engine side of C20 for the code as it is now: one step or pass of the regenerated `take_action` makes the
+hash history at most one node longer (so its length is bounded by the number of turns, and the list operations of
+`linked_list.rs`, each of constant stack depth, are applied a bounded number of times per action) -/
+theorem C05_code_history_step (s s' : GameState) (pp : PlayPhase) (hph : s.phase = .play pp) (a : Action)
+    (hmv : a = .pass ∨ ∃ i d, a = .move i d) (ht : GameState_take_action s a = .ok s') :
+    ∃ pp', s'.phase = .play pp' ∧ pp'.hist.length ≤ pp.hist.length + 1 := by
+  simp only [bridge_GameState_take_action] at ht
+  have h2 := (C05_value_of_ok (RsAgree.take_action_eq s a) ht).2
+  subst h2
+  exact C05_history_step s pp hph a hmv
+
 /-- ... and every turn completed in such a game changes the board -/
 theorem C05_code_turn_changes_board (s0 t : GameState) (h0 : StartOk s0) (as : List Action) (a : Action)
     (hg : CodeGame s0 (as ++ [a]) t) (hend : endsTurnAt (s0.run as) a = true) :
@@ -174,7 +187,7 @@ theorem C05_code_turn_changes_board (s0 t : GameState) (h0 : StartOk s0) (as : L
   subst ht
   exact C05_turn_changes_board s0 h0 as a ho hend
 '''
-w('C05', ['Arimaa.Props.C05', L + 'RsAgreeOffered', L + 'RsAgreeStep'], ['va', 'take', 'ipl', 'cp'],
+w('C05', ['Arimaa.Props.C05', 'Arimaa.Props.C05c', L + 'RsAgreeOffered', L + 'RsAgreeStep'], ['va', 'take', 'ipl', 'cp'],
   value_cor('C05', 'C05_code_offered', '(s : GameState) (r : List Action)', 'GameState_valid_actions s', 's.validActions', 'RsAgree.valid_actions_eq s') + C05_EXTRA)
 w('C06', ['Arimaa.Props.C06', L + 'RsAgreeOffered', L + 'RsAgreeStep'], ['va', 'take', 'ipl', 'cp'],
   value_cor('C06', 'C06_code_offered', '(s : GameState) (r : List Action)', 'GameState_valid_actions s', 's.validActions', 'RsAgree.valid_actions_eq s') +
@@ -202,8 +215,28 @@ theorem C07_code_has_move_iff (s : GameState) (pp : PlayPhase) (hph : s.phase = 
   have h2 := (C07_value_of_ok (RsAgree.valid_actions_eq s) hl).2
   subst h1 h2
   exact C07_has_move_iff s pp hph h3
+
+/-- **C07 for the code as it is now**: in a play-phase state with step counter at most 3, if the regenerated
+`is_terminal` returns "no result" then the list the regenerated `valid_actions` returns is not empty: a driver that
+asks for the result before asking for actions never gets stuck -/
+theorem C07_code_no_result_nonempty (s : GameState) (pp : PlayPhase) (hph : s.phase = .play pp) (h3 : pp.step ≤ 3)
+    (l : List Action) (ht : GameState_is_terminal s = .ok none) (hl : GameState_valid_actions s = .ok l) : l ≠ [] := by
+  simp only [bridge_GameState_is_terminal] at ht
+  simp only [bridge_GameState_valid_actions] at hl
+  have h1 := (C07_value_of_ok (RsAgree.is_terminal_eq s) ht).2
+  have h2 := (C07_value_of_ok (RsAgree.valid_actions_eq s) hl).2
+  subst h2
+  exact C07_no_result_nonempty s pp hph h3 h1.symm
 ''')
-w('C08', ['Arimaa.Props.C08', L + 'RsAgreeStep', L + 'RsAgreeTHash'], ['take', 'fpb', 'pbv', 'thash', 'geq'], '''
+w('C08', ['Arimaa.Props.C08', L + 'RsAgreeStep', L + 'RsAgreeTHash'], ['take', 'fpb', 'pbv', 'thash', 'geq', 'ghash'], '''
+/-- **`Hash` is consistent with `==` in the code as it is now**: two states the regenerated `eq` calls equal feed
+the same word to any hasher (the word both compare: the board-state hash) -/
+theorem C08_code_hash_consistent_with_eq (a b : GameState) (st : List BB) (h : GameState_eq a b = true) :
+    GameState_hash a st = GameState_hash b st := by
+  simp only [bridge_GameState_eq, bridge_GameState_hash, RsAgree.game_state_eq, RsAgree.game_state_hash] at h ⊢
+  have : a.hash = b.hash := by simpa using h
+  rw [this]
+
 /-- **C08 for the code as it is now**: if the incremental hash of a play state equals the from-scratch hash, then
 after a step or pass computed by the regenerated `take_action` it still does — and the regenerated
 `Zobrist::from_piece_board` of the new board, side and step returns exactly the stored hash -/
@@ -232,7 +265,7 @@ theorem C09_code_offered (s : GameState) (hph : s.phase = .place) (l : List Acti
   rw [C09_code_offered_list s l hl]
   exact C09_offered s hph
 ''')
-w('C10', ['Arimaa.Props.C10', L + 'RsAgreeStep'], ['take', 'bfp', 'ppm', 'bbpt', 'ptas'], '''
+w('C10', ['Arimaa.Props.C10', L + 'RsAgreeStep', L + 'RsAgreeShow'], ['take', 'bfp', 'ppm', 'bbpt', 'ptas', 'fmt'], '''
 /-- **C10 for the code as it is now**: on a well-formed board the regenerated views (`bits_for_piece`,
 `player_piece_mask`, `bits_by_piece_type`, `piece_type_at_square`) all describe the one abstract position -/
 theorem C10_code_views_agree (b : Board) (hw : WF b) (k : Nat) (hk : k < 64) :
@@ -248,7 +281,26 @@ theorem C10_code_views_agree (b : Board) (hw : WF b) (k : Nat) (hk : k < 64) :
   have : b.pieceTypeAtSquarePanics k = false := by simp [Board.pieceTypeAtSquarePanics, sqBitPanics]; omega
   rw [this, h5]; rfl
 ''', spec=True)
-w('C11', ['Arimaa.Props.C11', L + 'RsAgreeGen', L + 'RsAgreeStep', L + 'RsAgreeResult'], ['vanr', 'take', 'term'])
+w('C11', ['Arimaa.Props.C11', L + 'RsAgreeGen', L + 'RsAgreeStep', L + 'RsAgreeResult'], ['vanr', 'take', 'term'],
+  NOREP % ('C11', 'C11') +
+  value_cor('C11', 'C11_code_result_value', '(s : GameState) (r : Option Terminal)', 'GameState_is_terminal s', 's.isTerminal', 'RsAgree.is_terminal_eq s') + '''
+/-- **C11 for the code as it is now**: for two states that are images of each other under a file mirror and / or a
+colour swap with rank flip, the rule-only lists the regenerated code returns correspond action by action, and at
+the start of a turn the results it returns are the swapped results -/
+theorem C11_code_offered_and_result (σ : Sym) (s s' : GameState) (pp pp' : PlayPhase)
+    (h : PlayInv s pp) (h' : PlayInv s' pp') (hr : SymRel σ s pp s' pp') (l l' : List Action)
+    (hl : GameState_valid_actions_no_rep s = .ok l) (hl' : GameState_valid_actions_no_rep s' = .ok l') :
+    (∀ a, σ.iact a ∈ l' ↔ a ∈ l) ∧
+    (pp.step = 0 → pp.pps = .none → ∀ r r', GameState_is_terminal s = .ok r → GameState_is_terminal s' = .ok r' →
+      r' = r.map σ.ires) := by
+  have h1 := C11_code_rule_only s l hl
+  have h2 := C11_code_rule_only s' l' hl'
+  subst h1 h2
+  refine ⟨fun a => (C11_impl_offered_all σ s s' pp pp' h h' hr a).1, ?_⟩
+  intro h0 hpps r r' hrr hrr'
+  rw [C11_code_result_value s r hrr, C11_code_result_value s' r' hrr']
+  exact C11_impl_result σ s s' pp pp' h h' hr h0 hpps
+''', spec=True)
 w('C12', ['Arimaa.Props.C12', L + 'RsAgreeGen', L + 'RsAgreeStep'], ['vanr', 'npps', 'mcpa', 'take'],
   NOREP % ('C12', 'C12') + '''
 /-- **C12 for the code as it is now**: after a step from the rule-only list of the regenerated code, applied by
@@ -287,8 +339,81 @@ theorem C13_code_preview_exact (s : GameState) (pp : PlayPhase) (h : PlayInv s p
   exact C13_preview_exact s pp h hno i d ha
 ''', spec=True)
 w('C14', ['Arimaa.Props.C14', L + 'RsAgreePrevBoards', L + 'RsAgreeStep'], ['pbs', 'take'],
-  value_cor('C14', 'C14_code_board_for_step', '(s : GameState) (i : Nat) (r : Board)', 'GameState_piece_board_for_step s i', 's.pieceBoardForStep i', 'RsAgree.piece_board_for_step_eq s i'))
-w('C15', ['Arimaa.Props.C15', L + 'RsAgreeTHash', L + 'RsAgreeHash'], ['thash', 'fpb'])
+  value_cor('C14', 'C14_code_board_for_step', '(s : GameState) (i : Nat) (r : Board)', 'GameState_piece_board_for_step s i', 's.pieceBoardForStep i', 'RsAgree.piece_board_for_step_eq s i') + '''
+/-- steps applied one after the other by the regenerated `take_action`, none of which panicked -/
+inductive CodeSteps : GameState → List (Nat × Dir) → GameState → Prop where
+  | nil (s : GameState) : CodeSteps s [] s
+  | cons {s s' t : GameState} {m : Nat × Dir} {ms : List (Nat × Dir)} :
+      GameState_take_action s (.move m.1 m.2) = .ok s' → CodeSteps s' ms t → CodeSteps s (m :: ms) t
+
+theorem C14_code_steps_are_model_steps {s t : GameState} {ms : List (Nat × Dir)} (h : CodeSteps s ms t) :
+    t = s.runMoves ms := by
+  induction h with
+  | nil s => rfl
+  | cons ht _ ih =>
+    simp only [bridge_GameState_take_action] at ht
+    have h2 := (C14_value_of_ok (RsAgree.take_action_eq _ _) ht).2
+    subst h2
+    rw [ih]; rfl
+
+/-- **C14 for the code as it is now**: after `k ≤ 3` steps of a turn applied by the regenerated `take_action`, the
+regenerated `piece_board_for_step i` returns (never panics), for every `i ≤ k`, exactly the board as it stood
+after `i` steps of this turn -/
+theorem C14_code_boards_of_turn (s0 t : GameState) (pp0 : PlayPhase) (hph : s0.phase = .play pp0)
+    (hstart : pp0.step = 0) (ms : List (Nat × Dir)) (hk : ms.length ≤ 3) (hg : CodeSteps s0 ms t)
+    (i : Nat) (hi : i ≤ ms.length) :
+    GameState_piece_board_for_step t i = .ok (s0.stateAfter ms i).board := by
+  have ht := C14_code_steps_are_model_steps hg
+  subst ht
+  obtain ⟨ppk, hpk, hstep, _, hprev, hall⟩ := C14_boards_of_turn s0 pp0 hph hstart ms hk
+  simp only [bridge_GameState_piece_board_for_step, RsAgree.piece_board_for_step_eq]
+  have hp : (s0.runMoves ms).pieceBoardForStepPanics i = false := by
+    unfold pieceBoardForStepPanics
+    rw [hpk]
+    have hlen : ppk.prev.length = ms.length := by rw [hprev]; simp
+    by_cases he : i = ppk.step
+    · simp [he]
+    · have : i < ppk.prev.length := by rw [hlen]; omega
+      have h2 : ¬ i ≥ ppk.prev.length := by omega
+      simp [he, h2]
+  rw [hp, hall i hi]; rfl
+''')
+w('C15', ['Arimaa.Props.C15', L + 'RsAgreeTHash', L + 'RsAgreeHash', L + 'RsAgreeShow', L + 'RsAgreeParse'], ['thash', 'fpb', 'fmt'], '''
+/-- the regenerated diagram parser (`FromStr for GameState`: `split('|')`, the header through `matchHeader`, the two
+nested loops with their early `Err`, `parse()?`) agrees with the hand-written `parseState` on every text shorter than
+2^60 characters (the cell index is a `usize` in the code) -/
+theorem C15_code_parser_agrees (t : List Char) (hlen : t.length < 2 ^ 60) :
+    GameState_from_str t = RsAgree.ofOutcome (parseState t) := by
+  simp only [bridge_GameState_from_str]
+  exact RsAgree.game_state_from_str t hlen
+
+/-- **C15 (no crash) for the code as it is now**: the regenerated parser returns `Ok` or `Err` on EVERY text -
+oversized or non-ASCII move numbers, any number of rows and cells, stray bars, non-ASCII cells -/
+theorem C15_code_no_panic (t : List Char) (hlen : t.length < 2 ^ 60) : GameState_from_str t ≠ .panic := by
+  rw [C15_code_parser_agrees t hlen]
+  have h := (C15_no_panic t).1
+  cases hp : parseState t <;> simp_all [RsAgree.ofOutcome]
+
+/-- **C15 (round trip) for the code as it is now**: parsing, with the regenerated parser, the diagram the
+regenerated `Display` prints for a state with a well-formed board returns `Ok` of a state with the same board, side
+and move number, which prints identically -/
+theorem C15_code_roundtrip (s : GameState) (hw : WF s.board) (hn : s.moveNo ≤ usizeMax) (text : List Char)
+    (hshow : GameState_fmt s [] = .ok text) (hlen : text.length < 2 ^ 60) :
+    ∃ s', GameState_from_str text = .ok (some s') ∧ s'.board = s.board ∧ s'.p1Turn = s.p1Turn ∧
+      s'.moveNo = s.moveNo ∧ GameState_fmt s' [] = .ok text := by
+  simp only [bridge_GameState_fmt, RsAgree.game_state_fmt, List.nil_append, Res.ok.injEq] at hshow
+  subst hshow
+  obtain ⟨s', hp, hb, ht, hm, hs⟩ := C15_roundtrip s hw hn
+  refine ⟨s', ?_, hb, ht, hm, ?_⟩
+  · rw [C15_code_parser_agrees _ hlen, hp]; rfl
+  · simp only [bridge_GameState_fmt, RsAgree.game_state_fmt, List.nil_append, hs]
+
+/-- **C15 (printing side) for the code as it is now**: the regenerated `Display for GameState` never panics and
+appends exactly the diagram `showState s` the round-trip theorems are about (the diagram PARSER, `FromStr for
+GameState` with its regular expression, is not translated: it stays hand-modelled and tied by the text campaigns) -/
+theorem C15_code_show (s : GameState) : GameState_fmt s [] = .ok (showState s) := by
+  simp only [bridge_GameState_fmt, RsAgree.game_state_fmt, List.nil_append]
+''')
 w('C17', ['Arimaa.Props.C17', L + 'RsAgreeTHash', L + 'RsAgreeHash'], ['thash', 'wpps', 'fpb'],
   value_cor('C17', 'C17_code_thash', '(s : GameState) (r : BB)', 'GameState_transposition_hash s', 's.transpositionHash', 'RsAgree.transposition_hash_eq s') + '''
 /-- **C17 for the code as it is now** (content of one square): two play states that differ in the content of
